@@ -23,9 +23,16 @@ def expectedLine (a : PAtom) : PLine :=
   PLine.mk (a.type = str "ATOM") (a.type = str "HETATM")
     (some (decOfFix 3 a.x, decOfFix 3 a.y, decOfFix 3 a.z, decOfOptFix4 a.q, decOfOptFix4 a.r))
 
+/-! ### grid -/
+
 theorem grid_legal_core {α : Type} [PNum α] (p : Params α) (mx mn : α) :
     ∃ k : Int, 1 ≤ k ∧ (axis p mx mn).ngrid = 32 * k + 1 := by
-  sorry
+  simp only [axis]
+  generalize (PNum.trunc (_ : α) : Int) = t
+  show ∃ k : Int, 1 ≤ k ∧ max (32 * t + 1) 33 = 32 * k + 1
+  by_cases ht : t ≤ 0
+  · exact ⟨1, le_refl _, by omega⟩
+  · exact ⟨t, by omega, by omega⟩
 
 theorem boxes_enclose_core (p : Params ℚ) (mx mn : ℚ) (hc : 1 ≤ p.cfac) (hf : 0 ≤ p.fadd) (h : mn ≤ mx) :
     let g := axis p mx mn
@@ -33,39 +40,381 @@ theorem boxes_enclose_core (p : Params ℚ) (mx mn : ℚ) (hc : 1 ≤ p.cfac) (h
     g.center - g.fine / 2 ≤ mn ∧ mx ≤ g.center + g.fine / 2 ∧
     g.center - g.coarse / 2 ≤ mn ∧ mx ≤ g.center + g.coarse / 2 ∧
     g.fine ≤ g.coarse := by
-  sorry
+  have h10 : (PNum.dec 1 1 : ℚ) = 1 / 10 := by simp [PNum.dec]
+  have h2 : (PNum.dec 2 0 : ℚ) = 2 := by simp [PNum.dec]
+  simp only [axis, pmax, pmin, h10, h2, PNum.lt, decide_eq_true_eq]
+  split_ifs with h1 h3 h3
+  all_goals refine ⟨trivial, ?_, ?_, ?_, ?_, ?_⟩ <;> nlinarith
+
+/-! ### extent -/
+
+theorem upMin_le_self (m : Option ℚ) (v : ℚ) : upMin m v ≤ v := by
+  cases m with
+  | none => exact le_refl _
+  | some o =>
+    simp only [upMin, PNum.lt, decide_eq_true_eq]
+    split_ifs with h
+    · exact le_refl _
+    · exact not_lt.mp h
+
+theorem upMin_le_old (o v : ℚ) : upMin (some o) v ≤ o := by
+  simp only [upMin, PNum.lt, decide_eq_true_eq]
+  split_ifs with h
+  · exact le_of_lt h
+  · exact le_refl _
+
+theorem self_le_upMax (m : Option ℚ) (v : ℚ) : v ≤ upMax m v := by
+  cases m with
+  | none => exact le_refl _
+  | some o =>
+    simp only [upMax, PNum.lt, decide_eq_true_eq]
+    split_ifs with h
+    · exact le_refl _
+    · exact not_lt.mp h
+
+theorem old_le_upMax (o v : ℚ) : o ≤ upMax (some o) v := by
+  simp only [upMax, PNum.lt, decide_eq_true_eq]
+  split_ifs with h
+  · exact le_of_lt h
+  · exact le_refl _
+
+/-- the extent recorded in `a` contains the sphere `(x, y, z, r)` -/
+def Cov (a : Acc ℚ) (x y z r : ℚ) : Prop :=
+  ∃ mn mx, a.minlen = some mn ∧ a.maxlen = some mx ∧
+    mn.1 ≤ x - r ∧ x + r ≤ mx.1 ∧ mn.2.1 ≤ y - r ∧ y + r ≤ mx.2.1 ∧ mn.2.2 ≤ z - r ∧ z + r ≤ mx.2.2
+
+theorem cov_step_new (a : Acc ℚ) (fa fh : Bool) (x y z q r : ℚ) :
+    Cov (accStep a fa fh (some (x, y, z, q, r))) x y z r :=
+  ⟨_, _, rfl, rfl, upMin_le_self _ _, self_le_upMax _ _, upMin_le_self _ _, self_le_upMax _ _,
+    upMin_le_self _ _, self_le_upMax _ _⟩
+
+theorem cov_step_pres {a : Acc ℚ} {x y z r : ℚ} (h : Cov a x y z r) (fa fh : Bool)
+    (v : Option (ℚ × ℚ × ℚ × ℚ × ℚ)) : Cov (accStep a fa fh v) x y z r := by
+  obtain ⟨mn, mx, h1, h2, b1, b2, b3, b4, b5, b6⟩ := h
+  match v with
+  | none => exact ⟨mn, mx, h1, h2, b1, b2, b3, b4, b5, b6⟩
+  | some (x', y', z', q', r') =>
+    refine ⟨_, _, rfl, rfl, ?_, ?_, ?_, ?_, ?_, ?_⟩
+    all_goals simp only [h1, h2, Option.map_some]
+    · exact le_trans (upMin_le_old _ _) b1
+    · exact le_trans b2 (old_le_upMax _ _)
+    · exact le_trans (upMin_le_old _ _) b3
+    · exact le_trans b4 (old_le_upMax _ _)
+    · exact le_trans (upMin_le_old _ _) b5
+    · exact le_trans b6 (old_le_upMax _ _)
+
+theorem cov_foldl_pres (ls : List (Bool × Bool × Option (ℚ × ℚ × ℚ × ℚ × ℚ))) {a : Acc ℚ}
+    {x y z r : ℚ} (h : Cov a x y z r) :
+    Cov (ls.foldl (fun a l => accStep a l.1 l.2.1 l.2.2) a) x y z r := by
+  induction ls generalizing a with
+  | nil => exact h
+  | cons l ls ih => exact ih (cov_step_pres h _ _ _)
+
+theorem cov_foldl (ls : List (Bool × Bool × Option (ℚ × ℚ × ℚ × ℚ × ℚ))) (a : Acc ℚ)
+    (x y z q r : ℚ) (fa fh : Bool) (hm : (fa, fh, some (x, y, z, q, r)) ∈ ls) :
+    Cov (ls.foldl (fun a l => accStep a l.1 l.2.1 l.2.2) a) x y z r := by
+  induction ls generalizing a with
+  | nil => simp at hm
+  | cons l ls ih =>
+    rcases List.mem_cons.mp hm with rfl | hm
+    · exact cov_foldl_pres ls (cov_step_new a fa fh x y z q r)
+    · exact ih _ hm
 
 theorem extent_covers_core (ls : List (Bool × Bool × Option (ℚ × ℚ × ℚ × ℚ × ℚ)))
     (x y z q r : ℚ) (fa fh : Bool) (hm : (fa, fh, some (x, y, z, q, r)) ∈ ls) :
     ∃ mn mx, (ls.foldl (fun a l => accStep a l.1 l.2.1 l.2.2) acc0).minlen = some mn ∧
       (ls.foldl (fun a l => accStep a l.1 l.2.1 l.2.2) acc0).maxlen = some mx ∧
-      mn.1 ≤ x - r ∧ x + r ≤ mx.1 ∧ mn.2.1 ≤ y - r ∧ y + r ≤ mx.2.1 ∧ mn.2.2 ≤ z - r ∧ z + r ≤ mx.2.2 := by
-  sorry
+      mn.1 ≤ x - r ∧ x + r ≤ mx.1 ∧ mn.2.1 ≤ y - r ∧ y + r ≤ mx.2.1 ∧ mn.2.2 ≤ z - r ∧ z + r ≤ mx.2.2 :=
+  cov_foldl ls acc0 x y z q r fa fh hm
+
+/-! ### memory estimate, input file -/
 
 theorem memory_matches_core (p : Str) (nx ny nz : Int) :
     (gmem nx ny nz : ℚ) = 200 * nx * ny * nz / 1048576 ∧
     (inputHead p nx ny nz)[5]? = some (str "    dime " ++ intStr nx ++ [' '] ++ intStr ny ++ [' '] ++ intStr nz) := by
-  sorry
+  constructor
+  · simp only [gmem, PNum.dec, PNum.ofInt]
+    norm_num
+    ring
+  · rfl
+
+theorem splitGo_of_not_mem {sep : Char} {name : Str} (hs : sep ∉ name) (cur : Str) (acc : List Str) :
+    splitOnChar.go sep name cur acc = acc.reverse ++ [cur.reverse ++ name] := by
+  induction name generalizing cur with
+  | nil => simp [splitOnChar.go]
+  | cons c name ih =>
+    have hc : c ≠ sep := fun h => hs (by simp [h])
+    rw [splitOnChar.go, if_neg hc, ih (fun h => hs (List.mem_cons_of_mem _ h))]
+    simp
+
+theorem splitGo_append_sep {sep : Char} {name : Str} (hs : sep ∉ name) (dir cur : Str) (acc : List Str) :
+    ∃ L, splitOnChar.go sep (dir ++ sep :: name) cur acc = L ++ [name] := by
+  induction dir generalizing cur acc with
+  | nil =>
+    refine ⟨(cur.reverse :: acc).reverse, ?_⟩
+    rw [List.nil_append, splitOnChar.go, if_pos rfl, splitGo_of_not_mem hs]
+    simp
+  | cons c dir ih =>
+    rw [List.cons_append, splitOnChar.go]
+    split
+    · exact ih _ _
+    · exact ih _ _
+
+theorem baseName_append (dir name : Str) (hn : name ≠ []) (hs : '/' ∉ name) :
+    baseName (dir ++ ['/'] ++ name) = name := by
+  obtain ⟨L, hL⟩ := splitGo_append_sep hs dir [] []
+  have : dir ++ ['/'] ++ name = dir ++ '/' :: name := by simp
+  rw [baseName, splitOnChar, this, hL, List.filter_append]
+  simp [hn]
 
 theorem input_names_pqr_core (dir name : Str) (nx ny nz : Int) (hn : name ≠ []) (hs : '/' ∉ name) :
     (inputHead (dir ++ ['/'] ++ name) nx ny nz)[1]? = some (str "    mol pqr " ++ name) := by
-  sorry
+  rw [inputHead, baseName_append dir name hn hs]
+  rfl
+
+/-! ### line parser -/
 
 theorem header_ignored_core (l : Str) (h1 : startsWith l (str "ATOM") = false) (h2 : startsWith l (str "HETATM") = false) :
     parseLine l = .ok none := by
-  sorry
+  simp [parseLine, h1, h2]
+
+section parser
+open P2P.Proofs.Text P2P.Proofs.Pqr
+
+/-! ### `replaceMinus` -/
+
+theorem replaceMinus_append (s t : Str) : replaceMinus (s ++ t) = replaceMinus s ++ replaceMinus t := by
+  induction s with
+  | nil => rfl
+  | cons c s ih =>
+    rw [List.cons_append, replaceMinus, replaceMinus, ih]
+    split <;> rfl
+
+theorem replaceMinus_of_not_mem {s : Str} (h : '-' ∉ s) : replaceMinus s = s := by
+  induction s with
+  | nil => rfl
+  | cons c s ih =>
+    have hc : c ≠ '-' := fun e => h (by simp [e])
+    rw [replaceMinus, if_neg hc, ih (fun e => h (List.mem_cons_of_mem _ e))]
+
+theorem replaceMinus_cons_space (s : Str) : replaceMinus (' ' :: s) = ' ' :: replaceMinus s := by
+  rw [replaceMinus, if_neg (by decide)]
+
+theorem replaceMinus_replicate (k : Nat) : replaceMinus (List.replicate k ' ') = List.replicate k ' ' :=
+  replaceMinus_of_not_mem (fun h => absurd (List.mem_replicate.mp h).2 (by decide))
+
+theorem replaceMinus_fmtFix (k : Nat) (v : Fix) :
+    replaceMinus (fmtFix k v) = (if v.neg then [' '] else []) ++ fmtFix k v := by
+  have hbody : '-' ∉ natStr (v.mag / 10 ^ k) ++ '.' :: zpad (natStr (v.mag % 10 ^ k)) k := by
+    intro h
+    rcases List.mem_append.mp h with h | h
+    · exact ne_minus_of_isDigit (isDigit_of_mem_natStr h) rfl
+    · rcases List.mem_cons.mp h with h | h
+      · exact absurd h (by decide)
+      · exact ne_minus_of_isDigit
+          (List.all_eq_true.mp (all_isDigit_zpad (all_isDigit_natStr _) k) _ h) rfl
+  rw [fmtFix_eq, List.append_assoc]
+  cases v.neg
+  · simpa using replaceMinus_of_not_mem hbody
+  · simp only [if_true, List.singleton_append]
+    rw [replaceMinus, if_pos rfl, replaceMinus_of_not_mem hbody]
+
+/-- after `replace("-", " -")` the field `F` reads: blanks, then the token -/
+def Fld (F tok : Str) : Prop := ∃ U, AllWs U ∧ replaceMinus F = U ++ tok
+/-- … and there is at least one blank -/
+def SepFld (F tok : Str) : Prop := ∃ U, AllWs U ∧ U ≠ [] ∧ replaceMinus F = U ++ tok
+
+theorem SepFld.fld {F tok : Str} (h : SepFld F tok) : Fld F tok := by
+  obtain ⟨U, h1, _, h3⟩ := h; exact ⟨U, h1, h3⟩
+
+theorem Fld.cons_space {F tok : Str} (h : Fld F tok) : SepFld (' ' :: F) tok := by
+  obtain ⟨U, h1, h3⟩ := h
+  exact ⟨' ' :: U, allWs_cons.mpr ⟨isWs_space, h1⟩, by simp, by rw [replaceMinus_cons_space, h3]; rfl⟩
+
+theorem fld_rjust_fmtFix (k : Nat) (v : Fix) (w : Nat) : Fld (rjust (fmtFix k v) w) (fmtFix k v) := by
+  refine ⟨List.replicate (w - (fmtFix k v).length) ' ' ++ (if v.neg then [' '] else []), ?_, ?_⟩
+  · refine allWs_append.mpr ⟨allWs_replicate _, ?_⟩
+    cases v.neg
+    · exact allWs_nil
+    · exact allWs_cons.mpr ⟨isWs_space, allWs_nil⟩
+  · rw [rjust, replaceMinus_append, replaceMinus_replicate, replaceMinus_fmtFix, List.append_assoc]
+
+theorem sepFld_rjust_fmtFix (k : Nat) (v : Fix) (w : Nat)
+    (h : ((fmtFix k v).length < w || v.neg) = true) : SepFld (rjust (fmtFix k v) w) (fmtFix k v) := by
+  refine ⟨List.replicate (w - (fmtFix k v).length) ' ' ++ (if v.neg then [' '] else []), ?_, ?_, ?_⟩
+  · refine allWs_append.mpr ⟨allWs_replicate _, ?_⟩
+    cases v.neg
+    · exact allWs_nil
+    · exact allWs_cons.mpr ⟨isWs_space, allWs_nil⟩
+  · simp only [Bool.or_eq_true, decide_eq_true_eq] at h
+    rcases h with h | h
+    · obtain ⟨n, hn⟩ : ∃ n, w - (fmtFix k v).length = n + 1 := ⟨w - (fmtFix k v).length - 1, by omega⟩
+      rw [hn, List.replicate_succ]; simp
+    · rw [h]; simp
+  · rw [rjust, replaceMinus_append, replaceMinus_replicate, replaceMinus_fmtFix, List.append_assoc]
+
+theorem startsWs_of_allWs_ne_nil {U : Str} (hU : AllWs U) (hne : U ≠ []) (s : Str) : StartsWs (U ++ s) := by
+  cases U with
+  | nil => exact absurd rfl hne
+  | cons c U => exact startsWs_cons (allWs_cons.mp hU).1 _
+
+/-- the five words after column 30 -/
+theorem splitWs_replaceMinus5 {X Y Z Q R tx ty tz tq tr : Str}
+    (hx : Fld X tx) (hy : SepFld Y ty) (hz : SepFld Z tz) (hq : SepFld Q tq) (hr : SepFld R tr)
+    (nx : tx ≠ [] ∧ NoWs tx) (ny : ty ≠ [] ∧ NoWs ty) (nz : tz ≠ [] ∧ NoWs tz)
+    (nq : tq ≠ [] ∧ NoWs tq) (nr : tr ≠ [] ∧ NoWs tr) :
+    splitWs (replaceMinus (X ++ (Y ++ (Z ++ (Q ++ (R ++ ['\n'])))))) = [tx, ty, tz, tq, tr] := by
+  obtain ⟨Ux, ax, ex⟩ := hx
+  obtain ⟨Uy, ay, by', ey⟩ := hy
+  obtain ⟨Uz, az, bz, ez⟩ := hz
+  obtain ⟨Uq, aq, bq, eq⟩ := hq
+  obtain ⟨Ur, ar, br, er⟩ := hr
+  have hnl : replaceMinus ['\n'] = ['\n'] := by decide
+  simp only [replaceMinus_append, ex, ey, ez, eq, er, hnl, List.append_assoc]
+  rw [splitWs_allWs_append ax, splitWs_tok_append nx.1 nx.2 (startsWs_of_allWs_ne_nil ay by' _),
+    splitWs_allWs_append ay, splitWs_tok_append ny.1 ny.2 (startsWs_of_allWs_ne_nil az bz _),
+    splitWs_allWs_append az, splitWs_tok_append nz.1 nz.2 (startsWs_of_allWs_ne_nil aq bq _),
+    splitWs_allWs_append aq, splitWs_tok_append nq.1 nq.2 (startsWs_of_allWs_ne_nil ar br _),
+    splitWs_allWs_append ar, splitWs_tok_append nr.1 nr.2 (startsWs_cons isWs_newline _),
+    splitWs_cons_ws isWs_newline, splitWs_nil]
+
+/-- `parse_lines` on an ATOM/HETATM line with exactly these five words after column 30 -/
+theorem parseLine_of_words {line ty w0 w1 w2 w3 w4 : Str} {x y z q r : PyFloat}
+    (hty : ty = str "ATOM" ∨ ty = str "HETATM")
+    (hA : startsWith line (str "ATOM") = decide (ty = str "ATOM"))
+    (hH : startsWith line (str "HETATM") = decide (ty = str "HETATM"))
+    (hW : splitWs (replaceMinus (line.drop 30)) = [w0, w1, w2, w3, w4])
+    (h0 : parseFloat? w0 = some x) (h1 : parseFloat? w1 = some y) (h2 : parseFloat? w2 = some z)
+    (h3 : parseFloat? w3 = some q) (h4 : parseFloat? w4 = some r) :
+    parseLine line = .ok (some ⟨decide (ty = str "ATOM"), decide (ty = str "HETATM"), some (x, y, z, q, r)⟩) := by
+  have e1 : decide (str "ATOM" = str "HETATM") = false := by decide
+  have e2 : decide (str "HETATM" = str "ATOM") = false := by decide
+  rcases hty with rfl | rfl
+  · simp only [parseLine, hA, hH, hW, h0, h1, h2, h3, h4, e1, decide_true]
+    rfl
+  · simp only [parseLine, hA, hH, hW, h0, h1, h2, h3, h4, e2, decide_true]
+    rfl
+
+/-! ### the two layouts -/
+
+theorem startsWith_type {a : PAtom} (hty : a.type = str "ATOM" ∨ a.type = str "HETATM") (rest : Str) :
+    startsWith ((ljust a.type 6).take 6 ++ rest) (str "ATOM") = decide (a.type = str "ATOM") ∧
+    startsWith ((ljust a.type 6).take 6 ++ rest) (str "HETATM") = decide (a.type = str "HETATM") := by
+  rcases hty with h | h
+  · rw [h]
+    have e : (ljust (str "ATOM") 6).take 6 = 'A' :: 'T' :: 'O' :: 'M' :: ' ' :: ' ' :: [] := by decide
+    rw [e]
+    constructor
+    · simp [startsWith, str]
+    · simp [startsWith, str, List.isPrefixOf]
+  · rw [h]
+    have e : (ljust (str "HETATM") 6).take 6 = 'H' :: 'E' :: 'T' :: 'A' :: 'T' :: 'M' :: [] := by decide
+    rw [e]
+    constructor
+    · simp [startsWith, str, List.isPrefixOf]
+    · simp [startsWith, str]
+
+theorem tok3 (v : Fix) : fmtFix 3 v ≠ [] ∧ NoWs (fmtFix 3 v) := ⟨fmtFix_ne_nil _ _, noWs_fmtFix _ _⟩
+theorem tok4 (v : Option Fix) : optFix4 v ≠ [] ∧ NoWs (optFix4 v) := ⟨optFix4_ne_nil _, noWs_optFix4 _⟩
+
+theorem parse_exact_fixed_aux (kc : Bool) (a : PAtom) (h : Fits a = true)
+    (hy : ((fmtFix 3 a.y).length < 8 || a.y.neg) = true) (hz : ((fmtFix 3 a.z).length < 8 || a.z.neg) = true)
+    (hq : ((optFix4 a.q).length < 8 || (a.q.getD ⟨false, 0⟩).neg) = true)
+    (hr : ((optFix4 a.r).length < 7 || (a.r.getD ⟨false, 0⟩).neg) = true) :
+    parseLine (fmtPqr kc a ++ ['\n']) = .ok (some (expectedLine a)) := by
+  have F := fitsP_of_fits h
+  have hline : fmtPqr kc a ++ ['\n'] =
+      ((ljust a.type 6).take 6 ++ ((rjust (intStr a.serial) 5).take 5 ++ ([' '] ++ (nameField a.name ++
+        (resNameField a.resName ++ ([' '] ++ ((ljust (if kc then a.chain else []) 1).take 1 ++
+        ((rjust (intStr a.resSeq) 4).take 4 ++ insField a.ins)))))))) ++
+      (coordField a.x ++ (coordField a.y ++ (coordField a.z ++
+        ((rjust (optFix4 a.q) 8).take 8 ++ ((rjust (optFix4 a.r) 7).take 7 ++ ['\n']))))) := by
+    simp only [fmtPqr, pqrFields_eq, List.flatten_cons, List.flatten_nil, List.append_assoc,
+      List.append_nil]
+  have hdrop : (fmtPqr kc a ++ ['\n']).drop 30 =
+      coordField a.x ++ (coordField a.y ++ (coordField a.z ++
+        ((rjust (optFix4 a.q) 8).take 8 ++ ((rjust (optFix4 a.r) 7).take 7 ++ ['\n'])))) := by
+    rw [hline]
+    apply List.drop_left'
+    simp only [List.length_append, List.length_cons, List.length_nil, length_take_ljust,
+      length_take_rjust, length_nameField, length_resNameField, length_insField F.ins1]
+  have hS : startsWith (fmtPqr kc a ++ ['\n']) (str "ATOM") = decide (a.type = str "ATOM") ∧
+      startsWith (fmtPqr kc a ++ ['\n']) (str "HETATM") = decide (a.type = str "HETATM") := by
+    rw [hline, List.append_assoc]; exact startsWith_type F.type _
+  have hW : splitWs (replaceMinus ((fmtPqr kc a ++ ['\n']).drop 30)) =
+      [fmtFix 3 a.x, fmtFix 3 a.y, fmtFix 3 a.z, optFix4 a.q, optFix4 a.r] := by
+    rw [hdrop, coordField_eq F.x8, coordField_eq F.y8, coordField_eq F.z8,
+      take_rjust_of_le F.q8, take_rjust_of_le F.r7]
+    refine splitWs_replaceMinus5 (fld_rjust_fmtFix _ _ _) (sepFld_rjust_fmtFix _ _ _ hy)
+      (sepFld_rjust_fmtFix _ _ _ hz) ?_ ?_ (tok3 _) (tok3 _) (tok3 _) (tok4 _) (tok4 _)
+    · rw [optFix4_eq]; rw [optFix4_eq] at hq; exact sepFld_rjust_fmtFix _ _ _ hq
+    · rw [optFix4_eq]; rw [optFix4_eq] at hr; exact sepFld_rjust_fmtFix _ _ _ hr
+  rw [parseLine_of_words F.type hS.1 hS.2 hW (parseFloat?_fmtFix (by decide) _)
+    (parseFloat?_fmtFix (by decide) _) (parseFloat?_fmtFix (by decide) _)
+    (parseFloat?_optFix4 _) (parseFloat?_optFix4 _)]
+  rfl
+
+
+theorem insField_split {ins : Str} (h : ins.length ≤ 1) :
+    ∃ i2 : Str, i2.length = 2 ∧ insField ins = i2 ++ [' ', ' '] := by
+  match ins, h with
+  | [], _ => exact ⟨[' ', ' '], rfl, by decide⟩
+  | [c], _ => exact ⟨[c, ' '], rfl, by simp [insField, str]⟩
+  | _ :: _ :: _, h => simp at h
+
+theorem parse_exact_ws_aux (kc : Bool) (a : PAtom) (h : Fits a = true)
+    (hq : ((optFix4 a.q).length < 8 || (a.q.getD ⟨false, 0⟩).neg) = true)
+    (hr : ((optFix4 a.r).length < 7 || (a.r.getD ⟨false, 0⟩).neg) = true) :
+    parseLine (wsRespace (fmtPqr kc a) ++ ['\n']) = .ok (some (expectedLine a)) := by
+  have F := fitsP_of_fits h
+  obtain ⟨i2, hi2, hins⟩ := insField_split F.ins1
+  have hline := wsLine_eq kc a F.ins1
+  have hS : startsWith (wsRespace (fmtPqr kc a) ++ ['\n']) (str "ATOM") = decide (a.type = str "ATOM") ∧
+      startsWith (wsRespace (fmtPqr kc a) ++ ['\n']) (str "HETATM") = decide (a.type = str "HETATM") := by
+    rw [hline]; exact startsWith_type F.type _
+  have hdrop : (wsRespace (fmtPqr kc a) ++ ['\n']).drop 30 =
+      (' ' :: ' ' :: coordField a.x) ++ ((' ' :: coordField a.y) ++ ((' ' :: coordField a.z) ++
+        ((rjust (optFix4 a.q) 8).take 8 ++ ((rjust (optFix4 a.r) 7).take 7 ++ ['\n'])))) := by
+    have e : wsRespace (fmtPqr kc a) ++ ['\n'] =
+        ((ljust a.type 6).take 6 ++ ' ' :: ((rjust (intStr a.serial) 5).take 5 ++ ' ' ::
+        (nameField a.name ++ ' ' :: (resNameField a.resName ++ ' ' ::
+        ((ljust (if kc then a.chain else []) 1).take 1 ++ ((rjust (intStr a.resSeq) 4).take 4 ++
+        i2)))))) ++
+        ((' ' :: ' ' :: coordField a.x) ++ ((' ' :: coordField a.y) ++ ((' ' :: coordField a.z) ++
+        ((rjust (optFix4 a.q) 8).take 8 ++ ((rjust (optFix4 a.r) 7).take 7 ++ ['\n']))))) := by
+      rw [hline, hins]
+      simp only [List.append_assoc, List.cons_append, List.nil_append]
+    rw [e]
+    apply List.drop_left'
+    simp only [List.length_append, List.length_cons, length_take_ljust,
+      length_take_rjust, length_nameField, length_resNameField, hi2]
+  have hW : splitWs (replaceMinus ((wsRespace (fmtPqr kc a) ++ ['\n']).drop 30)) =
+      [fmtFix 3 a.x, fmtFix 3 a.y, fmtFix 3 a.z, optFix4 a.q, optFix4 a.r] := by
+    rw [hdrop, coordField_eq F.x8, coordField_eq F.y8, coordField_eq F.z8,
+      take_rjust_of_le F.q8, take_rjust_of_le F.r7]
+    refine splitWs_replaceMinus5 (fld_rjust_fmtFix _ _ _).cons_space.fld.cons_space.fld
+      (fld_rjust_fmtFix _ _ _).cons_space (fld_rjust_fmtFix _ _ _).cons_space
+      ?_ ?_ (tok3 _) (tok3 _) (tok3 _) (tok4 _) (tok4 _)
+    · rw [optFix4_eq]; rw [optFix4_eq] at hq; exact sepFld_rjust_fmtFix _ _ _ hq
+    · rw [optFix4_eq]; rw [optFix4_eq] at hr; exact sepFld_rjust_fmtFix _ _ _ hr
+  rw [parseLine_of_words F.type hS.1 hS.2 hW (parseFloat?_fmtFix (by decide) _)
+    (parseFloat?_fmtFix (by decide) _) (parseFloat?_fmtFix (by decide) _)
+    (parseFloat?_optFix4 _) (parseFloat?_optFix4 _)]
+  rfl
+
+end parser
 
 theorem parse_exact_fixed_core (kc : Bool) (a : PAtom) (h : Fits a = true)
     (hy : ((fmtFix 3 a.y).length < 8 || a.y.neg) = true) (hz : ((fmtFix 3 a.z).length < 8 || a.z.neg) = true)
     (hq : ((optFix4 a.q).length < 8 || (a.q.getD ⟨false, 0⟩).neg) = true)
     (hr : ((optFix4 a.r).length < 7 || (a.r.getD ⟨false, 0⟩).neg) = true) :
-    parseLine (fmtPqr kc a ++ ['\n']) = .ok (some (expectedLine a)) := by
-  sorry
+    parseLine (fmtPqr kc a ++ ['\n']) = .ok (some (expectedLine a)) :=
+  parse_exact_fixed_aux kc a h hy hz hq hr
 
 theorem parse_exact_ws_core (kc : Bool) (a : PAtom) (h : Fits a = true)
     (hq : ((optFix4 a.q).length < 8 || (a.q.getD ⟨false, 0⟩).neg) = true)
     (hr : ((optFix4 a.r).length < 7 || (a.r.getD ⟨false, 0⟩).neg) = true) :
-    parseLine (wsRespace (fmtPqr kc a) ++ ['\n']) = .ok (some (expectedLine a)) := by
-  sorry
+    parseLine (wsRespace (fmtPqr kc a) ++ ['\n']) = .ok (some (expectedLine a)) :=
+  parse_exact_ws_aux kc a h hq hr
 
 end P2P.Proofs.Psize
